@@ -232,7 +232,6 @@ Proof.
       * intros r0. rewrite Hhm', Hhm, Hp. simpl. lia.
       * intros c0 Hc0. assert (c0 = r) by (destruct m; cbn in *; congruence). subst c0.
         rewrite (getl_some _ _ _ Hr1), F3. lia.
-      * intros Hc0. unfold m' in Hc0. destruct m; discriminate.
       * intros q0 Hq0. assert (Hq1 : m_locks m = Some q0) by (destruct m; exact Hq0).
         unfold s1. apply map_ok_setl; [apply B10; auto|]. intros items mp Hs id E.
         destruct (B10 q0 Hq1 items mp Hs id r E) as [_ [Cl _]]. rewrite (getl_some _ _ _ Hr) in Cl. lia.
